@@ -414,6 +414,7 @@ def _env(engine):
         if engine.endswith("nll"):
             lnp = c17.LnProxy(math)
             extra.append((CN, "math", lnp))
+            extra.append((JS, "math", lnp))
         return c17._patch_md(extra)
     if engine == "E2-wf":
         from . import c12
